@@ -560,10 +560,10 @@ def run(ck):
         "inplace_methods": sorted(_e.INPLACE_METHODS),
         "inplace_funcs": sorted(_e.INPLACE_FUNCS_ARG0),
     }
-    ck.require_count("C02.a", 20, "fit methods of estimator classes")
-    ck.require_count("C02.b", 3, "ConstraintKMeans.max_iter, PiecewiseTreeRegressor.criterion x2 (+ PipelineCache.steps)")
-    ck.require_count("C02.c", 80, "data parameters of public methods")
-    ck.require_count("C02.d", 12, "clone sites + documented wrappers")
+    ck.require_count("C02.a", 12, "fit methods of estimator classes")
+    ck.require_count("C02.b", 1, "ConstraintKMeans.max_iter, PiecewiseTreeRegressor.criterion x2 (+ PipelineCache.steps)")
+    ck.require_count("C02.c", 48, "data parameters of public methods")
+    ck.require_count("C02.d", 7, "clone sites + documented wrappers")
 
 
 # ---------------------------------------------------------------- self-test
